@@ -7,14 +7,19 @@ pub mod c02;
 pub mod c03;
 pub mod c04;
 pub mod c05;
+pub mod c06;
+pub mod c07;
 pub mod c08;
 pub mod c09;
 pub mod c10;
+pub mod c11;
 pub mod c12;
 pub mod c13;
+pub mod c14;
+pub mod c16;
 pub mod c17;
 
-pub const ALL: &[&str] = &["C01", "C02", "C03", "C04", "C05", "C08", "C09", "C10", "C12", "C13", "C17"];
+pub const ALL: &[&str] = &["C01", "C02", "C03", "C04", "C05", "C06", "C07", "C08", "C09", "C10", "C11", "C12", "C13", "C14", "C16", "C17"];
 
 pub fn run(id: &str, ctx: &Ctx) {
     match id {
@@ -24,10 +29,15 @@ pub fn run(id: &str, ctx: &Ctx) {
         "C10" => c10::run(ctx),
         "C04" => c04::run(ctx),
         "C05" => c05::run(ctx),
+        "C06" => c06::run(ctx),
+        "C07" => c07::run(ctx),
+        "C11" => c11::run(ctx),
+        "C14" => c14::run(ctx),
         "C08" => c08::run(ctx),
         "C09" => c09::run(ctx),
         "C12" => c12::run(ctx),
         "C13" => c13::run(ctx),
+        "C16" => c16::run(ctx),
         "C17" => c17::run(ctx),
         _ => {
             eprintln!("unknown property {id}");
@@ -44,10 +54,15 @@ pub fn replay(id: &str, ctx: &Ctx, sub: &str, case: &Value) -> Vec<Violation> {
         "C10" => c10::replay(ctx, sub, case),
         "C04" => c04::replay(ctx, sub, case),
         "C05" => c05::replay(ctx, sub, case),
+        "C06" => c06::replay(ctx, sub, case),
+        "C07" => c07::replay(ctx, sub, case),
+        "C11" => c11::replay(ctx, sub, case),
+        "C14" => c14::replay(ctx, sub, case),
         "C08" => c08::replay(ctx, sub, case),
         "C09" => c09::replay(ctx, sub, case),
         "C12" => c12::replay(ctx, sub, case),
         "C13" => c13::replay(ctx, sub, case),
+        "C16" => c16::replay(ctx, sub, case),
         "C17" => c17::replay(ctx, sub, case),
         _ => {
             eprintln!("unknown property {id}");
